@@ -142,6 +142,11 @@ fn v(h: &H, idx: u64, sig: &str, d: J) {
 // ---- layout ---------------------------------------------------------------------------------------
 
 fn ws(rng: &mut Rng) -> &'static str {
+    if rng.chance(0.08) {
+        // white space beyond ASCII (`char::is_whitespace`): a no-break space pasted from a
+        // document, vertical tab, form feed, next line, em space, ideographic space
+        return *rng.pick(&["\u{a0}", "\u{b}", "\u{c}", "\u{85}", "\u{2003}", "\u{3000}", " \u{a0}", "\u{a0} "]);
+    }
     *rng.pick(&[" ", "  ", "\t", " \t ", "\n", "\r\n", "\r", "\n\n", " \n "])
 }
 
@@ -331,6 +336,29 @@ fn layout(h: &H, idx: u64, rng: &mut Rng) {
     };
     let base_steps = ctx.steps(base).cloned().unwrap_or_default();
     let nsteps = base_steps.len().max(1);
+    // the modifiers are flags like any other: true where written, false where not, each on its own
+    if nsteps == steps.len() {
+        for (i, st) in steps.iter().enumerate() {
+            let Ok(p) = ctx.params(base, i) else { continue };
+            h.eval(1);
+            // (`inv` is a flag only for operators that list it in their gamut - `noop` does not -
+            // so it is left to the behavioural comparison; the omit modifiers are valid everywhere)
+            for (flag, written) in [("omit_fwd", st.omit_fwd), ("omit_inv", st.omit_inv)] {
+                if p.boolean(flag) != written {
+                    v(
+                        h,
+                        idx,
+                        &format!("layout/modifier-flag-value/{flag}/{}", if written { "written-but-false" } else { "true-but-not-written" }),
+                        J::obj().set("definition", &canon_text).set("step", i).set("flag", flag).set("written", written).set("inv_omit_fwd_omit_inv", format!("{} {} {}", st.inv, st.omit_fwd, st.omit_inv)),
+                    );
+                    return;
+                }
+            }
+            if st.omit_fwd && st.omit_inv {
+                h.class("layout/step-with-both-omit-modifiers");
+            }
+        }
+    }
     let base_params: Vec<String> = (0..nsteps).map(|i| ctx.params(base, i).map(|p| params_fingerprint(&p)).unwrap_or_default()).collect();
     let probes: Vec<Coor4D> = (0..3).map(|i| Coor4D([0.1 + 0.05 * i as f64, 0.9 - 0.1 * i as f64, 30.0 * i as f64, 2000.0])).collect();
     let mut want_f = probes.clone();
